@@ -22,7 +22,7 @@ ANCHOR_FILES = ["sktime/classification/base.py", "sktime/classification/interval
 REQUIRED_REACH = ["_tsf.py:TimeSeriesForestClassifier.predict_proba", "_tsf.py:_transform", "_tsf.py:_get_intervals", "_boss.py:BOSSEnsemble.predict_proba",
                   "_cboss.py:ContractableBOSS.predict_proba", "_column_ensemble.py:BaseColumnEnsembleClassifier.predict_proba", "_tsf.py:TimeSeriesForestRegressor.predict",
                   "slope_and_trend.py:_slope", "_rise.py:RandomIntervalSpectralForest.predict_proba", "_stsf.py:SupervisedTimeSeriesForest.predict_proba", "_muse.py:MUSE.predict_proba"]
-REQUIRED_MONITORS = ["proba.shape", "proba.range", "proba.rowsum", "classes_", "predict.argmax", "predict.label-type", "score", "tsf.features", "tsf.average-of-trees",
+REQUIRED_MONITORS = ["votes", "proba.shape", "proba.range", "proba.rowsum", "classes_", "predict.argmax", "predict.label-type", "score", "tsf.features", "tsf.average-of-trees",
                      "tsfreg.average-of-trees", "column-ensemble.average"]
 NOT_COVERED = ["WEASEL, TDE, shapelet, distance-based, catch22-based and ROCKET classifiers (not runnable in the sandbox)",
                "float class labels (scikit-learn's target-type check rejects them as continuous)"]
@@ -32,7 +32,7 @@ JOBS = {"quick": 8, "thorough": 16}
 CASE_TIMEOUT = {"quick": 240.0, "thorough": 400.0}
 LABELSETS = {
     "int2": [0, 1], "int3": [0, 1, 2], "noncontig": [-3, 10, 7], "str2": ["a", "b"], "mixedcase": ["Up", "down", "MID"], "npstr": "np:x,y,z",
-    "int5": [1, 2, 3, 4, 5], "strnum": ["10", "2", "33"], "single-member": [0, 1, 2],
+    "int5": [1, 2, 3, 4, 5], "strnum": ["10", "2", "33"], "single-member": [0, 1, 2], "rare-low": [3, 10, 25], "rare-mid": ["a", "b", "c"],
 }
 
 
@@ -89,6 +89,12 @@ def _blackbox(case, ctx):
     if case["labels"] == "single-member":
         cidx = np.where(cidx == 2, 0, cidx)
         cidx[0], cidx[1], cidx[2], cidx[3] = 0, 1, 2, 1        # class 2 has exactly one member
+    if case["labels"] in ("rare-low", "rare-mid"):
+        # a rare class that is NOT the greatest label: sub-sampled ensemble members may never see it
+        rare = 0 if case["labels"] == "rare-low" else 1
+        others = [c for c in range(k) if c != rare]
+        cidx = np.array([others[i % len(others)] for i in range(len(cidx))])
+        cidx[:2] = rare
     y, vals = _labels(case["labels"], cidx, k)
     ytrain = pd.Series(y) if case["as_series"] else y
     Xte, cte, _ = pzoo.make_panel(rng, 9, case["nc"], case["nt"], classes=k)
@@ -131,6 +137,24 @@ def _blackbox(case, ctx):
         best = max(float(np.mean(np.array(perm)[Ptr.argmax(axis=1)] == true_col)) for perm in itertools.permutations(range(len(seen))))
         ctx.check("classes_", not (acc_id < 0.5 and best >= 0.9), "proba:%s:columns-not-ordered-like-classes_" % name,
                   "probability columns are not ordered like classes_ (another column order explains the training labels)", accuracy_declared_order=acc_id, accuracy_best_order=best)
+    # vote recount for the BOSS ensembles: every member's vote goes to the column of the label it predicts, weighted by the member's weight
+    if name in ("boss", "cboss") and hasattr(clf, "classifiers"):
+        weights = list(getattr(clf, "weights", [])) if name == "cboss" else [1.0] * len(clf.classifiers)
+        if len(weights) == len(clf.classifiers) and weights:
+            exp = np.zeros_like(P)
+            okv = True
+            for wgt, member in zip(weights, clf.classifiers):
+                okm, mp = ctx.call("member-predict:exception:" + name, member.predict, np.array([[np.asarray(Xte.iloc[i, 0], dtype=float)] for i in range(len(Xte))]))
+                if not okm:
+                    okv = False
+                    break
+                for i, lab in enumerate(np.asarray(mp).tolist()):
+                    exp[i, classes.index(lab)] += wgt
+            if okv:
+                exp = exp / float(np.sum(weights))
+                ctx.check("votes", np.allclose(P, exp, atol=1e-12), "proba:%s:not-the-weighted-member-votes-per-class" % name,
+                          "probabilities are not the members' votes counted in the column of the predicted label (normalised by the ensemble weight)",
+                          got=P[0].tolist(), expected=exp[0].tolist())
     ok, sc = ctx.call("score:exception:" + name, clf.score, Xte, yte)
     if ok:
         tie = any(np.sum(np.isclose(P[i], P[i].max(), atol=1e-12)) > 1 for i in range(len(P)))
